@@ -3,26 +3,37 @@
 //
 //	vh-accounts replay  <behaviours.ndjson>    behaviours of Accounts.tla -> real AccountsDB
 //	vh-accounts replay8 <behaviours.ndjson>    behaviours of DataTrie.tla -> real TrackableDataTrie through AccountsDB
+//	vh-accounts limits8 <behaviours.ndjson> <tier>   value sizes around the leaf-size limit
 package main
 
 import (
 	"fmt"
 	"os"
+	"runtime/debug"
+	"runtime/pprof"
 
 	"verif/harness/internal/vtrace"
 )
 
 func main() {
 	vtrace.Quiet()
+	debug.SetGCPercent(400)
 	if len(os.Args) < 3 {
 		fmt.Fprintln(os.Stderr, "usage: vh-accounts replay|replay8 <file>")
 		os.Exit(2)
+	}
+	if p := os.Getenv("VH_PROF"); p != "" {
+		f, _ := os.Create(p)
+		_ = pprof.StartCPUProfile(f)
+		defer pprof.StopCPUProfile()
 	}
 	switch os.Args[1] {
 	case "replay":
 		replayAccounts(os.Args[2])
 	case "replay8":
 		replayStorage(os.Args[2])
+	case "limits8":
+		limitsStorage(os.Args[2], os.Args[3])
 	default:
 		os.Exit(2)
 	}
